@@ -119,6 +119,7 @@ def step : Sexp → Option Sexp
           match initState units rts drivers seeds strict cinc with
           | none => pure (list [atom "error", atom "init"])
           | some st0 =>
+            if !Covered plan st0 ops then pure (list [atom "uncovered"]) else
             let tr := traceOps plan st0 ops
             let outs := tr.mapIdx (fun i r => match r with
               | .ok st => showState st
